@@ -357,7 +357,11 @@ fn intersect_pair(a: usize, b: usize, program: &mut Program) -> usize {
                 return never;
             }
             let mut fields = Vec::with_capacity(i1.fields.len());
-            for ((name, f1), (_, f2)) in i1.fields.iter().zip(i2.fields.iter()) {
+            for ((name, f1), (name2, f2)) in i1.fields.iter().zip(i2.fields.iter()) {
+                // Field labels are part of a tuple's type: `['int]` and `[x: 'int]` share no value.
+                if name != name2 {
+                    return never;
+                }
                 let fi = intersect_types(*f1, *f2, program);
                 if fi == program.never() {
                     return never;
